@@ -202,6 +202,19 @@ def selftest(prop, traces, workdir):
 
 # ------------------------------------------------------------------ the check
 
+# properties that promise an ANSWER or an eventual effect (a reply, a wake-up, a timer firing, reclamation): a server that
+# dies of a panic in its own code breaks them; for the pure safety properties (C01, C02) a dead driver decides nothing
+CRASH_BREAKS = {"C03", "C04", "C05", "C06", "C10", "C17"}
+
+def died(prop, out, binp, testname, fin, fout, p, wd, eng):
+    """a driver process died: the histories it finished are still validated; the death itself is a verdict only when it is
+    a panic of the code under test that the history in flight reproduces alone (engine.crash_verdict)"""
+    cv = engine.crash_verdict(prop, binp, testname, fin, fout, p, os.path.join(wd, "crash")) if prop in CRASH_BREAKS else None
+    if cv is None:
+        raise InfraError(f"engine {eng} died on {fin}:\n" + (p.stdout or "")[-3000:] + (p.stderr or "")[-2000:])
+    out.viols.append(cv)
+    engine.drop_unfinished(fout)
+
 def run(prop, tier, seed):
     out = checklib.Outcome()
     wd = vbuild.scratch(f"vf_{prop}_")
@@ -268,8 +281,7 @@ def run(prop, tier, seed):
         traces = []
         for fin, fout, p in res:
             if p is not None:
-                # the real code crashed / the harness died: not a verdict for this property by itself
-                raise InfraError(f"engine S died on {fin}:\n" + (p.stdout or "")[-3000:] + (p.stderr or "")[-2000:])
+                died(prop, out, binp, "TestVerifS", fin, fout, p, wd, "S")
             traces.append(fout)
         # (3b) engine C: gated concurrent schedules (client requests racing each other and the sweepers)
         nc = 200 if quick else 4000
@@ -289,7 +301,7 @@ def run(prop, tier, seed):
         resc = engine.run_harness(binp, "TestVerifC", conc, os.path.join(wd, "runc"), tag="c")
         for fin, fout, p in resc:
             if p is not None:
-                raise InfraError(f"engine C died on {fin}:\n" + (p.stdout or "")[-3000:] + (p.stderr or "")[-2000:])
+                died(prop, out, binp, "TestVerifC", fin, fout, p, wd, "C")
             traces.append(fout)
         scs = scs + conc
         # (3c) engine RT: millisecond timers on the real clock with the server's own sweepers (C05 / C06 / C03)
@@ -299,7 +311,7 @@ def run(prop, tier, seed):
             resr = engine.run_harness(binp, "TestVerifRT", rt, os.path.join(wd, "runrt"), tag="rt", nshards=min(len(rt), 48))
             for fin, fout, p in resr:
                 if p is not None:
-                    raise InfraError(f"engine RT died on {fin}:\n" + (p.stdout or "")[-3000:] + (p.stderr or "")[-2000:])
+                    died(prop, out, binp, "TestVerifRT", fin, fout, p, wd, "RT")
                 traces.append(fout)
             scs = scs + rt
         # (4) monitors
